@@ -209,12 +209,14 @@ package bkl
 //@   decreases (rank obj) 1
 //
 //@ func findOutputsMap(obj) (res, outs, err)
-//@   uses appNil, appAssoc
+//@   uses appNil, appAssoc, escNames
 //@   requires ((_ is VMap) obj)
 //@   ensures (= (isErr err) (outBad obj true))
 //@   ensures (=> (not (isErr err)) (= res (stripF obj)))                           [C11]
 //@   ensures (=> (not (isErr err)) (= outs (VList (selF obj))))                    [C11]
-//@   ensures (=> (escV obj) (and (not (isErr err)) (= res obj) (= outs (VList LNil))))       [C06]
+//@   ensures (=> (escV obj) (and (not (isErr err)) (= outs (VList LNil))))                    [C06]
+//@   ensures (=> (escV obj) (and ((_ is VMap) res) (forall ((j String)) (= (select (mc res) j) (select (mc obj) j)))))   [C06]
+//@   ensures (=> (escV obj) (= res obj))                                                      [C06] [follows]
 //@   decreases (rank obj) 0
 //@   loop 1
 //@     invariant ((_ is VMap) ret) ((_ is VList) outs)
@@ -246,6 +248,7 @@ package bkl
 //@   decreases (rank obj) 1
 //
 //@ func filterOutputMap(obj) (res, err)
+//@   uses escNames
 //@   requires ((_ is VMap) obj)
 //@   ensures (= (isErr err) (outBad obj false))
 //@   ensures (=> (not (isErr err)) (= res (hideF obj)))                            [C11]
@@ -404,7 +407,11 @@ package bkl
 //@   property C10
 //@   decreases (- 1002 depth) 0
 //@ func process1Map(obj, mergeFrom, mergeFromDocs, depth) (res, err)
-//@   ensures (=> (quiet obj (- depth 1)) (and (not (isErr err)) (= res (dropF obj))))    [C06]
+//@   uses escNames
+//@   ensures (=> (quiet obj (- depth 1)) (not (isErr err)))                                [C06]
+//@   ensures (=> (quiet obj (- depth 1)) (and ((_ is VMap) res) (forall ((j String)) (= (select (mc res) j)   [C06]
+//@              (ite (or (= (select (mc obj) j) VAbsent) (= (dropF (select (mc obj) j)) VNil)) VAbsent (dropF (select (mc obj) j)))))))
+//@   ensures (=> (quiet obj (- depth 1)) (= res (dropF obj)))                              [C06] [follows]
 //@   call filterMap#1
 //@     invariant ((_ is VMap) ret)
 //@     invariant (=> (quiet m (- depth 1)) (forall ((j String)) (=> (select visited j) (= (select (mc ret) j) (ite (= (dropF (select (mc m) j)) VNil) VAbsent (dropF (select (mc m) j)))))))   [C06]
@@ -465,8 +472,12 @@ package bkl
 //@   ensures (=> (quiet obj depth) (and (not (isErr err)) (= res (dropF obj))))          [C06]
 //@   decreases (- 1002 depth) 0
 //@ func process2Map(obj, mergeFrom, mergeFromDocs, ec, depth) (res, err)
+//@   uses escNames
 //@   requires ((_ is VMap) obj)
-//@   ensures (=> (quiet obj (- depth 1)) (and (not (isErr err)) (= res (dropF obj))))    [C06]
+//@   ensures (=> (quiet obj (- depth 1)) (not (isErr err)))                                [C06]
+//@   ensures (=> (quiet obj (- depth 1)) (and ((_ is VMap) res) (forall ((j String)) (= (select (mc res) j)   [C06]
+//@              (ite (or (= (select (mc obj) j) VAbsent) (= (dropF (select (mc obj) j)) VNil)) VAbsent (dropF (select (mc obj) j)))))))
+//@   ensures (=> (quiet obj (- depth 1)) (= res (dropF obj)))                              [C06] [follows]
 //@   call filterMap#1
 //@     invariant ((_ is VMap) ret)
 //@     invariant (=> (escV m) (forall ((j String)) (= (select (mc ret) j) (ite (select visited j) (select (mc m) j) VAbsent))))   [C06]
@@ -537,6 +548,12 @@ package bkl
 //@   ensures (=> (and (not (= (select (mc conf) "$match") VAbsent)) (not (= (countMatch (heap Document.Data) docs (select (mc conf) "$match")) 1))) (isErr err))   [C10]
 //@   ensures (=> (and (not (= (select (mc conf) "$match") VAbsent)) (= (select (mc conf) "$path") VAbsent) (not (isErr err)))     [C10]
 //@              (= res (Document.Data (firstMatch (heap Document.Data) docs (select (mc conf) "$match")))))
+//@   ensures (=> (and (not (= (select (mc conf) "$match") VAbsent)) (= (countMatch (heap Document.Data) docs (select (mc conf) "$match")) 1) ((_ is VStr) (select (mc conf) "$path")))    [C10]
+//@              (strPathOK (heap Document.Data) (Document.Data (firstMatch (heap Document.Data) docs (select (mc conf) "$match"))) docs
+//@                         (sv (select (mc conf) "$path")) res (isErr err)))
+//@   ensures (=> (and (not (= (select (mc conf) "$match") VAbsent)) (= (countMatch (heap Document.Data) docs (select (mc conf) "$match")) 1) ((_ is VList) (select (mc conf) "$path")))   [C10]
+//@              (listPathOK (heap Document.Data) (Document.Data (firstMatch (heap Document.Data) docs (select (mc conf) "$match"))) docs
+//@                          (ls (select (mc conf) "$path")) res (isErr err)))
 //@   decreases (rank conf) 0
 
 // ------------------------------------------------------------------------------------------------- ownership / frame (C02, C10, C19)
